@@ -345,6 +345,7 @@ type expiryPlan struct {
 	CloseFirstBy          string // client, server, none (first session just goes stale)
 	TransfersBefore       int
 	ThirdSession          bool
+	LateClose             bool // the server side closes the first session's connection only after the sweep
 }
 
 // TestExpiryDoesNotKillSuccessors: the sweeper runs once a minute (hard-coded), so N independent listeners with
@@ -361,6 +362,7 @@ func TestExpiryDoesNotKillSuccessors(t *testing.T) {
 			FirstAddr: rapid.IntRange(0, 2).Draw(rt, "a1"), SecondAddr: rapid.IntRange(0, 2).Draw(rt, "a2"),
 			CloseFirstBy:    []string{"client", "server", "none"}[rapid.IntRange(0, 2).Draw(rt, "close")],
 			TransfersBefore: rapid.IntRange(0, 3).Draw(rt, "xfers"), ThirdSession: rapid.Bool().Draw(rt, "third"),
+			LateClose: rapid.Bool().Draw(rt, "lateClose"),
 		}
 	})
 	type run struct {
@@ -369,6 +371,7 @@ func TestExpiryDoesNotKillSuccessors(t *testing.T) {
 		second *sess
 		third  *sess
 		first  *sess
+		fourth *sess
 	}
 	var runs []*run
 	start := time.Now()
@@ -412,7 +415,7 @@ func TestExpiryDoesNotKillSuccessors(t *testing.T) {
 		deadline := start.Add(time.Duration(sweep)*time.Minute + 4*time.Second)
 		for time.Now().Before(deadline) {
 			for _, r := range runs {
-				for _, s := range []*sess{r.second, r.third} {
+				for _, s := range []*sess{r.second, r.third, r.fourth} {
 					if s != nil && s.live {
 						s.client.SendAndReceive(nil) // a poll, as the client's poll loop would send
 					}
@@ -421,7 +424,20 @@ func TestExpiryDoesNotKillSuccessors(t *testing.T) {
 			time.Sleep(3 * time.Second)
 		}
 		for i, r := range runs {
-			for _, s := range []*sess{r.second, r.third} {
+			if sweep == 1 && r.plan.CloseFirstBy == "none" {
+				// the first session was never closed: it went stale (no traffic for ConnectionTimeout) and the sweep
+				// retired it; a new session now gets its identifier
+				if ns, err := openSession(r.w.ss, r.w.srv, addrPool[r.plan.SecondAddr]); err == nil {
+					r.fourth = &sess{session: ns, idx: len(r.w.all), addr: r.plan.SecondAddr, live: true, tag: 9000}
+					r.w.all = append(r.w.all, r.fourth)
+				}
+			}
+			if r.plan.LateClose {
+				// the server-side owner of the first session closes its connection now (every piped connection is
+				// closed by its owner sooner or later)
+				r.first.user.Close()
+			}
+			for _, s := range []*sess{r.second, r.third, r.fourth} {
 				if s == nil {
 					continue
 				}
